@@ -56,6 +56,16 @@ UNIVERSAL_FRAME_PROPS = {"C19": None,      # no undeclared global reads / writes
                          "C14": ("nasim.envs.",)}   # determinism: nobody draws from / re-seeds the global RNG undeclared
 
 
+# a property whose argument rests on another one (DESIGN 5/C20: "every value is paid at most once" is C05) is also decided
+# by that property's obligations
+PROP_DEPENDS = {"C20": ("C05",)}
+
+
+def _counts_for(prop, tags):
+    tags = tags or []
+    return prop in tags or any(d in tags for d in PROP_DEPENDS.get(prop, ()))
+
+
 def tasks_for(prop, REG):
     out = []
     for q, c in REG.contracts.items():
@@ -66,7 +76,7 @@ def tasks_for(prop, REG):
             pre = UNIVERSAL_FRAME_PROPS[prop]
             if pre is None or q.startswith(pre):
                 props.add(prop)
-        if prop in props and getattr(c, "verify", True):
+        if _counts_for(prop, props) and getattr(c, "verify", True):
             for v in c.variants():
                 out.append((q, v))
     return out
@@ -227,6 +237,7 @@ def run_tasks(fn, args, jobs, task_timeout):
             elif time.time() - t0 > task_timeout:
                 pr.kill()
                 results[i] = _err_record(a, f"task exceeded the hard limit of {task_timeout}s and was killed")
+                results[i]["killed"] = True
                 done = True
             if done:
                 pr.join(timeout=5)
@@ -312,13 +323,24 @@ def check_property(prop, tier="quick", tree="/repo", record=False, jobs=None, le
              if getattr(REG.contracts[q], "bounded", True)]
     unb = lambda q: getattr(REG.contracts[q], "unbounded", True)
     njobs = jobs or min(16, os.cpu_count() or 4)
-    hard = 240 if tier == "quick" else 1800
+    hard = 480 if tier == "quick" else 1800
     # phase 1: bounded (quantifier-free) instances: fast, yields replayable counterexamples
     resB = run_tasks(_run_task, jobsB, njobs, hard)
     refuted_names = frozenset(o["name"] for r in resB for o in r["results"] if o["status"] == "refuted")
     # phase 2: unbounded proofs; obligations already refuted in phase 1 are not attempted again
     jobsA = [(q, v, None, timeout_ms, tree, True, refuted_names) for (q, v) in tasks if unb(q)]
     resA = run_tasks(_run_task, jobsA, njobs, hard)
+    # a task killed at the hard limit is out of reach (path explosion on this tree), not a checker crash: the run-time
+    # fallback stands in where one exists, otherwise the function is reported undecided
+    for r in resA + resB:
+        if r.get("killed"):
+            r["limit"] = r["error"]
+            r["error"] = None
+            try:
+                from pyvc.source import Repo
+                _maybe_fallback(r, Repo(tree), REG.contracts[r["qualname"]], r["variant"], r["concrete"], tree, timeout_ms)
+            except Exception:
+                r["rt_fallback"] = {"error": traceback.format_exc()[-600:]}
     res = resA + resB
     D = Decision(prop)
     # ---- crashes / out of reach
@@ -357,7 +379,7 @@ def check_property(prop, tier="quick", tree="/repo", record=False, jobs=None, le
     agg = {}
     for r in resA:
         for o in r["results"]:
-            if prop not in (o["tags"] or []):
+            if not _counts_for(prop, o["tags"]):
                 continue
             a = agg.setdefault(o["name"], {"name": o["name"], "kind": o["kind"], "instances": 0, "discharged": 0,
                                            "seconds": 0.0, "backends": set(), "bad": []})
@@ -379,7 +401,7 @@ def check_property(prop, tier="quick", tree="/repo", record=False, jobs=None, le
             if o["kind"] == "cover":
                 covers.setdefault(key, []).append(o["status"])
                 continue
-            if prop not in (o["tags"] or []):
+            if not _counts_for(prop, o["tags"]):
                 continue
             b = bagg.setdefault(o["name"], {"instances": 0, "discharged": 0, "bounded_only": not unb(r["qualname"]),
                                             "unknown": 0})
@@ -484,10 +506,19 @@ def check_property(prop, tier="quick", tree="/repo", record=False, jobs=None, le
     D.rt = D_rt
     limited_q = {r["qualname"] for r in res if r.get("limit")}
     # ---- vanished obligations
+    cur_sha = {r["qualname"]: r.get("sha") for r in res if r.get("sha")}
+    rec_sha = exp.get("__sha__", {}) if isinstance(exp.get("__sha__"), dict) else {}
     if exp and not record and not D.violations:
         for name, st in exp.items():
+            if name == "__sha__":
+                continue
             if ":raises:" in name or name.startswith("pre@"):
                 continue        # exceptional-exit / call-site obligations exist only while such a path is explored
+            fq = name.split(":", 1)[0]
+            if fq in cur_sha and rec_sha.get(fq) is not None and cur_sha[fq] != rec_sha[fq]:
+                continue        # the function's source differs from the recorded baseline: its obligations (loop
+                                # invariants of a loop that no longer exists, ...) legitimately differ; the guard is
+                                # about the MACHINERY dropping obligations of unchanged code
             if any(name.startswith(q + ":") or f"@{q}:" in name for q in limited_q):
                 continue        # function decided by a bounded stand-in / run-time fallback on this tree (engine limit):
                                 # its proof obligations are not (all) generated
@@ -510,6 +541,7 @@ def check_property(prop, tier="quick", tree="/repo", record=False, jobs=None, le
         D.failures.append("zero obligations generated")
     if record:
         expected[prop] = {n: ("discharged" if a["discharged"] == a["instances"] else "open") for n, a in agg.items()}
+        expected[prop]["__sha__"] = {r["qualname"]: r["sha"] for r in res if r.get("sha")}
         for n, b in bagg.items():
             if b.get("bounded_only"):
                 expected[prop][n] = "bounded-discharged" if b["discharged"] == b["instances"] else "open"
